@@ -69,6 +69,8 @@ type Input struct {
 	Targets []TSpec `json:"graph"`
 	Pkgs    []PSpec `json:"packages"`
 	A       ASpec   `json:"args"`
+
+	chains []string // generator statistics (not part of the input): the hidden chains that were built
 }
 
 // ---------------------------------------------------------------------------------------------
@@ -696,6 +698,166 @@ func (g *gen) decorate(t *TSpec) {
 	}
 }
 
+// ---- chains of hidden sub-targets between a test and what it tests ------------------------------
+// publicDependencies looks through the hidden sub-targets of the test's OWN rule, at any depth
+// (k_test -> _k_test#main -> _k_test#lib -> k), and through nothing else.
+
+const (
+	chainOwn             = iota // every link is _<test>#<tag>: all are looked through
+	chainForeignRule            // one link is _<other>#<tag>: a hidden sub-target of ANOTHER rule - a public dependency itself
+	chainOtherPackage           // one link is //<other package>:_<test>#<tag>: same name, other package - not a sibling
+	chainManyUnderscores        // one link is ___<test>#<tag>: Parent() trims every underscore - still a sibling
+	chainNoUnderscore           // one link is <test>#<tag>: no leading underscore - Parent() is the label itself
+	nChainVariants
+)
+
+var chainVariantNames = []string{"own", "foreign-rule", "other-package", "many-underscores", "no-underscore"}
+var chainTags = []string{"lib", "main", "srcs"}
+
+func (g *gen) claim(pkg Lbl, name string) bool {
+	k := pkgKey(pkg.Sub, pkg.Pkg) + ":" + name
+	if g.names[k] {
+		return false
+	}
+	g.names[k] = true
+	return true
+}
+
+// chain creates `depth` hidden targets between the test `test` of package p and the subjects and
+// returns what the test itself must declare.  Link `depth` is the one next to the subjects.
+func (g *gen) chain(p Lbl, pks []Lbl, test string, subj []Lbl, depth, variant int) []Lbl {
+	r := g.r
+	deps := subj
+	odd := 0
+	if variant != chainOwn && depth > 0 {
+		odd = r.Range(1, depth)
+	}
+	realised := chainOwn
+	for i := depth; i >= 1; i-- {
+		tag := chainTags[i-1]
+		hp, name := p, "_"+test+"#"+tag
+		if i == odd {
+			switch variant {
+			case chainForeignRule:
+				other := "zz"
+				cands := []string{}
+				for _, o := range g.in.Targets {
+					if o.L.Sub == p.Sub && o.L.Pkg == p.Pkg && !isHidden(o.L.Name) && o.L.Name != test {
+						cands = append(cands, o.L.Name)
+					}
+				}
+				if len(cands) > 0 && r.Chance(3, 4) {
+					other = lib.Pick(r, cands)
+				}
+				name = "_" + other + "#" + tag
+			case chainOtherPackage:
+				for _, q := range pks {
+					if q != p && q.Sub == p.Sub {
+						hp = q
+					}
+				}
+			case chainManyUnderscores:
+				name = "___" + test + "#" + tag
+			case chainNoUnderscore:
+				name = test + "#" + tag
+			}
+			if (hp != p || name != "_"+test+"#"+tag) && g.claim(hp, name) {
+				realised = variant
+			} else {
+				hp, name = p, "_"+test+"#"+tag
+			}
+		}
+		if hp == p && name == "_"+test+"#"+tag {
+			// (an other-package link of a test with the same name elsewhere may have taken the name)
+			for n := 2; !g.claim(p, name); n++ {
+				name = fmt.Sprintf("_%s#%s%d", test, tag, n)
+			}
+		}
+		h := TSpec{L: Lbl{hp.Sub, hp.Pkg, name}, TestOnly: !r.Chance(1, 5), Deps: deps}
+		g.decorate(&h)
+		if r.Chance(1, 5) {
+			// something the test also tests, found at this depth
+			h.Deps = append(h.Deps, g.someDeps(1, 1, func(x *TSpec) bool { return !x.Test && !isHidden(x.L.Name) })...)
+		}
+		g.addTarget(h)
+		deps = []Lbl{h.L}
+	}
+	if depth > 0 {
+		g.in.chains = append(g.in.chains, fmt.Sprintf("depth%d-%s", depth, chainVariantNames[realised]))
+	}
+	return deps
+}
+
+// generateChain: the focused stream.  A library k that is (mostly) kept by something else, a test that
+// reaches it through 0-3 hidden links (two and three are the common case), the adversarial links,
+// and a few bystanders; the names make the test sort before, between and after the other targets.
+func generateChain(r *lib.Rng) *Input {
+	g := &gen{r: r, in: &Input{}, names: map[string]bool{}}
+	p := Lbl{Pkg: lib.Pick(r, []string{"p", "lib", "a/b"})}
+	q := Lbl{Pkg: lib.Pick(r, []string{"q", "a", "lib/x"})}
+	pks := []Lbl{p, q}
+	g.in.Pkgs = []PSpec{{Name: p.Pkg}, {Name: q.Pkg}}
+	k := TSpec{L: Lbl{"", p.Pkg, "k"}, Srcs: []string{"k.go"}, TestOnly: r.Chance(1, 10)}
+	g.claim(p, "k")
+	g.addTarget(k)
+	a := &g.in.A
+	switch r.Intn(8) {
+	case 0: // nothing keeps k: the test is not a root either
+	case 1:
+		g.in.Targets[0].Labels = []string{"keep"}
+		a.KeepLabels = []string{"keep"}
+	case 2:
+		a.Keep = []Lbl{k.L}
+	default:
+		bp := lib.Pick(r, pks)
+		bn := lib.Pick(r, []string{"bin", "a_bin", "zz_bin"})
+		g.claim(bp, bn)
+		b := TSpec{L: Lbl{"", bp.Pkg, bn}, Binary: true, Deps: []Lbl{k.L}, Srcs: []string{bn + ".go"}}
+		if r.Chance(1, 3) {
+			g.claim(q, "mid")
+			g.addTarget(TSpec{L: Lbl{"", q.Pkg, "mid"}, Deps: []Lbl{k.L}, Srcs: []string{"mid.go"}})
+			b.Deps = []Lbl{{"", q.Pkg, "mid"}}
+		}
+		g.addTarget(b)
+	}
+	if r.Chance(1, 2) {
+		g.claim(q, "helper")
+		g.addTarget(TSpec{L: Lbl{"", q.Pkg, "helper"}, Srcs: []string{"helper.go"}})
+	}
+	if r.Chance(1, 2) {
+		g.claim(p, "old")
+		g.addTarget(TSpec{L: Lbl{"", p.Pkg, "old"}, Srcs: lib.Pick(r, [][]string{{"old.go"}, {"old.go", "k.go"}, {"k_test.go"}})})
+	}
+	tests := []string{"k_test", "a_test", "zz_test"}
+	lib.Shuffle(r, tests)
+	for _, tn := range tests[:r.Range(1, 2)] {
+		g.claim(p, tn)
+		depth := []int{0, 1, 2, 2, 2, 3, 3, 3}[r.Intn(8)]
+		variant := chainOwn
+		if depth > 0 && r.Chance(1, 3) {
+			variant = r.Range(1, nChainVariants-1)
+		}
+		subj := []Lbl{k.L}
+		if r.Chance(1, 3) {
+			subj = append(subj, g.someDeps(1, 1, func(x *TSpec) bool { return x.L != k.L && !x.Test && !isHidden(x.L.Name) })...)
+		}
+		t := TSpec{L: Lbl{"", p.Pkg, tn}, Test: true, Binary: true, TestOnly: true, Srcs: []string{tn + ".go"}}
+		t.Deps = g.chain(p, pks, tn, subj, depth, variant)
+		if r.Chance(1, 6) {
+			t.Binary = false
+		}
+		g.addTarget(t)
+	}
+	a.Conservative = r.Chance(1, 10)
+	if len(a.Targets) == 0 {
+		a.Targets = expand(g.in, a.Keep)
+	}
+	if r.Chance(1, 8) {
+		a.Filter = []Lbl{{"", p.Pkg, lib.Pick(r, []string{"all", "..."})}}
+	}
+	return g.in
+}
+
 // generate builds one graph in creation order; dependencies only point at targets created earlier
 // (acyclic), while the label order - the order the implementation iterates in - is unrelated.
 func generate(r *lib.Rng, adv bool) *Input {
@@ -926,6 +1088,43 @@ func witnesses() []*Input {
 		{L: l("src/parse", "parse"), Deps: []Lbl{l("src/core", "core")}},
 		{L: l("src/cli", "cli")},
 	}})
+	// 6. a test behind a chain of two / three hidden sub-targets of its own rule (multi-stage test rules):
+	//    it is a test of the kept //lib:k and must stay, with the helper only it uses
+	for depth := 2; depth <= 3; depth++ {
+		ts := []TSpec{
+			{L: l("lib", "k"), Srcs: []string{"k.go"}},
+			{L: l("app", "bin"), Binary: true, Deps: []Lbl{l("lib", "k")}},
+			{L: l("testing", "helper"), Srcs: []string{"helper.go"}},
+			{L: l("junk", "junk"), Srcs: []string{"junk.go"}},
+		}
+		deps := []Lbl{l("lib", "k"), l("testing", "helper")}
+		for i := depth; i >= 1; i-- {
+			h := l("lib", "_k_test#"+chainTags[i-1])
+			ts = append(ts, TSpec{L: h, TestOnly: true, Deps: deps})
+			deps = []Lbl{h}
+		}
+		ts = append(ts, test(l("lib", "k_test"), deps...))
+		ws = append(ws, &Input{Pkgs: pk("lib", "app", "testing", "junk"), Targets: ts})
+	}
+	// 7. the links that only look like one: a hidden sub-target of another rule, the same name in another
+	//    package, a name without the underscore - what is behind them is NOT what the test tests (the test goes,
+	//    unless the link itself is kept) - and many underscores, which Parent() trims (the test stays)
+	for _, link := range []Lbl{l("lib", "_other#lib"), l("app", "_k_test#lib"), l("lib", "k_test#lib"), l("lib", "___k_test#lib")} {
+		for _, linkKept := range []bool{false, true} {
+			ts := []TSpec{
+				{L: l("lib", "k"), Srcs: []string{"k.go"}},
+				{L: l("app", "bin"), Binary: true, Deps: []Lbl{l("lib", "k")}},
+				{L: l("lib", "other"), Srcs: []string{"other.go"}},
+				{L: link, Deps: []Lbl{l("lib", "k")}},
+				{L: l("lib", "_k_test#main"), TestOnly: true, Deps: []Lbl{link}},
+				test(l("lib", "k_test"), l("lib", "_k_test#main")),
+			}
+			if linkKept {
+				ts[1].Deps = append(ts[1].Deps, link)
+			}
+			ws = append(ws, &Input{Pkgs: pk("lib", "app"), Targets: ts})
+		}
+	}
 	return ws
 }
 
@@ -950,6 +1149,10 @@ func main() {
 			"subincludes, a subrepo; arguments: gc.keep with //p:all and //p/... entries (targets = its expansion, as please.go does), keep labels with " +
 			"wildcards, a command-line filter, conservative mode. An adversarial stream uses small graphs, non-binary or non-test_only tests and " +
 			"unexpanded pseudo-labels as targets; fixed witnesses of every listed defect class are always included. " +
+			"Tests reach what they test directly or through a chain of 1-3 hidden sub-targets of their own rule (_t#main -> _t#lib -> ...), with adversarial " +
+			"links that only look like one (hidden sub-target of another rule, same name in another package, no underscore) or still are one (___t#lib); a " +
+			"focused stream builds small graphs around one such test of a library kept by a binary / keep label / gc.keep entry / nothing, and " +
+			"publicDependencies is also observed on the hidden sub-targets themselves. " +
 			"distinct = distinct graph+arguments; non-trivial = at least one target kept, one removed and one test in the graph")
 
 		var replay Input
@@ -978,8 +1181,14 @@ func main() {
 				// the two helper functions on their own, on a few targets of the same graph
 				pubs, sibs := []string{}, []string{}
 				pubsJS, sibsJS := map[string][]string{}, map[string]string{}
+				nHiddenObs := 0
 				for _, t := range b.graph.AllTargets() {
-					if t.IsTest() && len(pubs) < 3 {
+					// every test (the first three), and two hidden sub-targets: the recursive calls on their own
+					obsHidden := !t.IsTest() && t.Label.HasParent() && nHiddenObs < 2
+					if obsHidden {
+						nHiddenObs++
+					}
+					if (t.IsTest() && len(pubs)-nHiddenObs < 3) || obsHidden {
 						deps := []core.BuildLabel{}
 						for _, d := range gc.VerifPublicDependencies(b.graph, t) {
 							deps = append(deps, d.Label)
@@ -1001,6 +1210,12 @@ func main() {
 				c.Eval(js, key, nontrivial)
 			}
 			v := oracle(c, b, in, out)
+			for _, ch := range in.chains {
+				c.Hist(stream+"_hidden_chain", ch)
+			}
+			if len(in.chains) == 0 {
+				c.Hist(stream+"_hidden_chain", "none")
+			}
 			c.HistN(stream+"_targets", len(in.Targets))
 			c.HistN(stream+"_removed", len(out.removed))
 			c.HistN(stream+"_removed_srcs", min(len(out.srcs), 6))
@@ -1015,8 +1230,15 @@ func main() {
 			one(w, true, "witness")
 		}
 		nModel, nOracle := c.Scale(390, 7990), c.Scale(24000, 300000)
+		nChainModel, nChainOracle := c.Scale(110, 2000), c.Scale(6000, 80000)
 		for i := 0; i < nModel; i++ {
 			one(generate(c.Rng.Fork(), i%3 == 2), true, "model")
+		}
+		for i := 0; i < nChainModel; i++ {
+			one(generateChain(c.Rng.Fork()), true, "chainmodel")
+		}
+		for i := 0; i < nChainOracle; i++ {
+			one(generateChain(c.Rng.Fork()), false, "chain")
 		}
 		for i := 0; i < nOracle; i++ {
 			one(generate(c.Rng.Fork(), i%3 == 2), false, "oracle")
